@@ -74,17 +74,20 @@ Fixpoint sess_spec_ok (sp : list (string * db)) (cur : option string) (evs : lis
   | [], [] => true
   | ShEv (SvStmt (SCreateDatabase name)) :: er, ShOut o :: orr =>
       let n := lower name in
+      (* a legal name: not empty, not a path (".", "..", a separator), short enough for a directory *)
+      let legal := negb (String.eqb n "") && valid_dbname n in
       match sp_get n sp, o with
-      | None, SOOk => negb (String.eqb n "") && sess_spec_ok (sp ++ [(n, [])]) cur er orr
+      | None, SOOk => legal && sess_spec_ok (sp ++ [(n, [])]) cur er orr
       | Some _, SOErr SEDBExists => sess_spec_ok sp cur er orr
-      | None, SOErr _ => String.eqb n "" && sess_spec_ok sp cur er orr
+      | None, SOErr _ => negb legal && sess_spec_ok sp cur er orr
       | _, _ => false
       end
   | ShEv (SvStmt (SUse name)) :: er, ShOut o :: orr =>
       let n := lower name in
       match sp_get n sp, o with
       | Some _, SOOk => sess_spec_ok sp (Some n) er orr
-      | None, SOErr SEDBNotExist => sess_spec_ok sp cur er orr     (* selection unchanged *)
+      | None, SOErr SEDBNotExist => valid_dbname n && sess_spec_ok sp cur er orr     (* selection unchanged *)
+      | None, SOErr (SEStmt _) => negb (valid_dbname n) && sess_spec_ok sp cur er orr   (* a path is refused *)
       | _, _ => false
       end
   | ShEv (SvStmt SShowDatabase) :: er, ShOut (SOShow names) :: orr =>
